@@ -460,13 +460,20 @@ def offline_gap(ix, rep, mon):
         else:
             ok = True
     else:
-        m = re.match(r'^zip\((\w+),(\w+)\[1:\]\)$', it) or re.match(r'^zip\((\w+)\[:-1\],(\w+)\[1:\]\)$', it)
-        if m and m.group(1) == m.group(2) and isinstance(loop.target, ast.Tuple) and len(loop.target.elts) == 2:
+        m = re.match(r'^zip\((\w+)(?:\[(\d*):(-1)?\])?,(\w+)\[(\d+):\]\)$', it)
+        if m and m.group(1) == m.group(4) and isinstance(loop.target, ast.Tuple) and len(loop.target.elts) == 2:
+            # zip(X[a:], X[b:]) pairs X[a+k] with X[b+k]; consecutive pairs from the start: a = 0, b = 1
             X = m.group(1)
+            a0, b0 = int(m.group(2) or 0), int(m.group(5))
             p_, q_ = [ast.unparse(e) for e in loop.target.elts]
-            ok = a == '%s-%s' % (q_, p_)
-            if not ok:
+            if b0 - a0 != 1:
+                why = 'the loop pairs %s[k%+d] with %s[k%+d]: not consecutive time-stamps' % (X, a0, X, b0)
+            elif a0 != 0:
+                why = 'the first gap checked starts at index %d, not 0: the first gap%s skipped' % (a0, ' is' if a0 == 1 else 's are')
+            elif a != '%s-%s' % (q_, p_):
                 why = 'the loop computes `%s`, not later minus earlier' % a
+            else:
+                ok = True
     if X is None:
         raise AnalysisError('%s: loop over `%s` is not one of the recognised consecutive-pair idioms' % (f.where, it))
     # X is the time column
@@ -481,6 +488,18 @@ def offline_gap(ix, rep, mon):
     else:
         rep.fail('R-GAPLOOP', f.module.rel, sym, 'offline:in-loop', 'the loop does not check every consecutive pair of the time column: %s'
                  % (why or 'iter `%s`, value `%s`, sequence %s' % (it, a, tdef)), c.lineno)
+    # ... for every data set: the loop is on every path to a normal return (a shortcut that skips it for "uniform" traces decides uniformity
+    # by something weaker than looking at each gap)
+    cfg = flow.CFG(f.node)
+    dom = cfg.dominators()
+    ln = [n for n in cfg.nodes() if cfg.stmt[n] is loop]
+    rets = [n for n in cfg.reachable() if n == cfg.exit or isinstance(cfg.stmt[n], ast.Return)]
+    if ln and all(ln[0] in dom[r] for r in rets if r in dom):
+        rep.ok('R-GAPLOOP', f.module.rel, sym, 'offline:every-trace', 'the gap loop lies on every path to a normal return', loop.lineno)
+    else:
+        guard = [x for x in ast.walk(f.node) if isinstance(x, ast.If) and any(y is loop for y in ast.walk(x))]
+        rep.fail('R-GAPLOOP', f.module.rel, sym, 'offline:every-trace', 'the gap loop is skipped on some paths%s: for those data sets no gap is compared with the tolerance and the '
+                 'counter stays where it was' % (' (under `if %s`)' % ast.unparse(guard[0].test)[:60] if guard else ''), loop.lineno)
     unb, _ = flow.possibly_unbound(f.node)
     if unb:
         for nm, s in unb:
